@@ -1,4 +1,5 @@
 """C07 - leaf conflict resolution is an exact three-way merge or a refusal."""
+from ..harness import safe_repr as _srepr  # noqa: E402
 from .. import families, mergespec
 from ..families import sort_keys
 from ..harness import brief, eq
@@ -227,7 +228,7 @@ def run_shard(spec, rec):
                     # its base class does
                     cls = _subclass(cls)
                     rec.ev(impl + ':subclass-instance')
-                rec.journal(repr((fam.name, kind, impl, states)))
+                rec.journal(_srepr((fam.name, kind, impl, states)))
                 try:
                     outs[impl] = ('ok', cls()._p_resolveConflict(*states))
                 except Exception as e:
